@@ -87,8 +87,9 @@ def run(ctx):
     try:
         sig = facts()
     except Exception as e:
+        # broken tie: report it, but keep searching for a failing input with the last known value
         ctx.violation("tgen", {"error": str(e)}, "C29.tgen: cannot regenerate facts from source", no_input=True)
-        return
+        sig = 0xffffffffffff0004
     nsuites = 8 if ctx.quick else 160
     base = os.path.join(ctx.work, "pkgs")
     suites, dirs = [], []
